@@ -274,9 +274,23 @@ def h_ipv6(ctx, part, pattern=0, free=(0,)):
       ctx.check('malformed %s rejected' % txt, raises(lambda: A.IPAddr6(txt), Exception))
 
 
-def h_dpid(ctx, long_form):
+def h_dpid(ctx, long_form, form=None):
   U = ctx.pox('pox.lib.util'); t = T(ctx)
   d = ctx.int('dpid', 0, (1 << 64) - 1)
+  if form is not None:
+    # other accepted spellings of a 64-bit id: 16 hex digits, with 0x prefix, eight dashed byte groups
+    digs = [hexc(ctx, (d >> (4 * (15 - i))) & 15) for i in range(16)]
+    if form == 'hex16': chars = digs
+    elif form == '0x': chars = [48, 120] + digs
+    elif form == '0X': chars = [48, 88] + digs
+    else:
+      chars = []
+      for i in range(8):
+        if i: chars.append(45)
+        chars += digs[2 * i:2 * i + 2]
+    ctx.check('str_to_dpid(%s text of d) == d' % form, U.str_to_dpid(t.chars(chars)) == d)
+    ctx.witness('parsed-' + form)
+    return
   s = U.dpid_to_str(d, alwaysLong=long_form)
   ctx.check('str_to_dpid(dpid_to_str(d)) == d', U.str_to_dpid(s) == d)
   lo = d & 0xffffffffffff
@@ -312,10 +326,11 @@ def obligations(tier):
   BOUNDS[tier] = dict(ipv4="all 2^32 addresses, all 33 prefix lengths (symbolic), all 2^32 netmasks", ethernet="all 2^48 addresses; text forms xx:xx, xx-xx, 12 digits, upper case, short groups",
                       ipv6="raw: all addresses; text: %d zero-run patterns with symbolic non-zero groups (digit counts free on the first %d non-zero groups); "
                            "membership/masks: %s prefix lengths" % (len(pats), 3 if thorough else 2, 'all 129' if thorough else '11'),
-                      dpid="all 64-bit ids, short and alwaysLong forms")
+                      dpid="all 64-bit ids; short and alwaysLong canonical forms; 16-hex-digit, 0x-prefixed and 8-group dashed spellings")
   return [
     Obligation('O1_ipv4', h_ipv4, v4, witnesses=('net', 'contiguous', 'rejected', 'parsed'), max_decisions=20000, desc='IPAddr numeric/text/compare/network/CIDR/netmask/inference'),
     Obligation('O2_eth', h_eth, eth, max_decisions=20000, desc='EthAddr raw/text forms/compare/flags/malformed'),
     Obligation('O3_ipv6', h_ipv6, v6, width=160, witnesses=('text',), max_decisions=20000, desc='IPAddr6 raw/RFC 5952 text/membership/masks/malformed'),
-    Obligation('O4_dpid', h_dpid, [dict(long_form=False), dict(long_form=True)], max_decisions=20000, desc='dpid_to_str/str_to_dpid round trip and canonical text'),
+    Obligation('O4_dpid', h_dpid, [dict(long_form=False), dict(long_form=True)] + [dict(long_form=False, form=f) for f in ('hex16', '0x', '0X', 'dash8')], max_decisions=20000,
+               desc='dpid_to_str/str_to_dpid round trip, canonical text, and the plain-hex / 0x / dashed spellings of a 64-bit id'),
   ]
